@@ -3,7 +3,7 @@ import TorchDataVerif.Drv.Util
 /-! Driver for M6 `SP`: runs a history of loader operations through `TDV.SP.Loader`.
 
 request {"m":"sp",
-  "ds": {"kind": "map"|"map_stateful"|"iter_plain"|"iter_readme"|"iter_ds_state"|"iter_it_state"|"iter_selfiter",
+  "ds": {"kind": "map"|"map_stateful"|"iter_plain"|"iter_readme"|"iter_ds_state"|"iter_it_state"|"iter_selfiter"|"iter_ds_eager",
          "n": N, "fail": [items/indices that raise]},
   "bs": null | k, "drop_last": bool (loader.drop_last), "collate_fail": [items],
   "sampler": {"kind": "list"|"obj"|"random"|"inf", "order": [..] (list/obj), "bdl": bool (drop_last of the batch sampler),
@@ -85,6 +85,7 @@ def withData (j : Json) (k : {D Ds Dt : Type} → Data D Ds Dt → D → Except 
   | "iter_ds_state" => k (dsStateGen n fail) { i := 0, done := false, fr := .dead }
   | "iter_it_state" => k (itStateObj n fail) 0
   | "iter_selfiter" => k (selfIterObj n fail) (0, false)
+  | "iter_ds_eager" => k (eagerObj n fail) { i := 0, done := false, pos := 0 }
   | s => throw s!"unknown dataset kind {s}"
 
 def tabGen (perm : Array (List Nat × Nat)) : Gen Nat where
